@@ -184,6 +184,37 @@ func FactsAt(fd *core.FuncDecl, target ast.Node, atomize func(w *facts.Walker, e
 	return
 }
 
+// FactsAtWith is FactsAt that also renders the given expressions as canonical
+// paths at the target node (variable versions as they are there).
+func FactsAtWith(fd *core.FuncDecl, target ast.Node, atomize func(w *facts.Walker, e ast.Expr) facts.Formula, exprs []ast.Expr) (fm facts.Formula, paths []string, found bool) {
+	w := facts.NewWalker(fd.Pkg.TypesInfo)
+	w.Atomize = atomize
+	grab := func(f facts.Formula) {
+		fm, found = f, true
+		paths = nil
+		for _, e := range exprs {
+			paths = append(paths, w.Path(e))
+		}
+	}
+	w.AtNode = func(n ast.Node, states uint64, f facts.Formula) {
+		if n == target && !found {
+			grab(f)
+		}
+	}
+	w.OnExpr = func(e ast.Expr, f facts.Formula) {
+		if ast.Node(e) == target && !found {
+			grab(f)
+		}
+	}
+	w.OnStmt = func(s ast.Stmt, f facts.Formula) {
+		if ast.Node(s) == target && !found {
+			grab(f)
+		}
+	}
+	w.WalkBody(fd.Decl.Body, nil)
+	return
+}
+
 // PostDominated reports whether every path from node `from` to a normal
 // return of fd passes an event accepted by later.
 func PostDominated(p *core.Program, fd *core.FuncDecl, from ast.Node, later func(n ast.Node) bool) (ok bool, witness string) {
